@@ -404,6 +404,43 @@ def _apply_chain(x, chain, rep=None):
     return x
 
 
+def _except_clause(frames, chain):
+    """apply_except / apply_items_except: a member whose task fails with the named class is left out, every other member keeps
+    its own result under its own label, and a failure of any other class surfaces (sequential and pooled routes alike)."""
+    n = len(frames)
+    silenced = frames[len(chain) % n].name
+    other = frames[(len(chain) + 1) % n].name if n >= 3 and (n + len(chain)) % 2 else None
+
+    def fn(f):
+        if f.name == silenced:
+            raise KeyError(f.name)
+        if f.name == other:
+            raise ValueError(f.name)
+        return f.iloc[:1]
+
+    def fn_items(label, f):
+        if label == silenced:
+            raise KeyError(label)
+        if label == other:
+            raise ValueError(label)
+        return f.iloc[:1]
+    want = [(f.name, _snap_any(f.iloc[:1])) for f in frames if f.name != silenced]
+    for workers in (None, 2):
+        for form, func in (('apply_except', fn), ('apply_items_except', fn_items)):
+            what = 'Batch(max_workers=%r).%s(func, KeyError)' % (workers, form)
+            r = lib(lambda: [(k, _snap_any(v)) for k, v in getattr(sf.Batch.from_frames(frames, max_workers=workers, use_threads=True), form)(func, KeyError).items()])
+            if other is not None:
+                if not isinstance(r, Raised):
+                    raise Failure('except-swallowed', '%s: the ValueError of member %r did not surface; labels %s' % (what, other, [k for k, _ in r]))
+                if not isinstance(r.exc, ValueError):
+                    raise Failure('raised:%s' % r.cls, '%s raised %r where the member task raised ValueError' % (what, r.exc), r.where)
+            else:
+                if isinstance(r, Raised):
+                    raise Failure('raised:%s' % r.cls, '%s raised %r although only the silenced class was raised' % (what, r.exc), r.where)
+                if r != want:
+                    raise Failure('except-differs', '%s -> %s; expected %s' % (what, short(r, 300), short(want, 300)))
+
+
 def check_batch(case):
     frames = [sf.Frame.from_items(zip(spec.get('names', ('a', 'b')), spec['cols']), index=spec['index'], name='f%d' % q) for q, spec in enumerate(case['frames'])]
     chain = case['chain']
@@ -457,6 +494,8 @@ def check_batch(case):
             for k, v in r.items():
                 if _snap_any(v) != _snap_any(expected[k]):
                     raise Failure('export-differs', 'Batch chain %s .to_bus()[%r] differs' % (chain, k))
+    if case['export'] not in ('to_frame', 'to_bus'):
+        _except_clause(frames, chain)
     return {'nt': len(frames) >= 2, 'cls': ['chain:%d' % len(chain)] + ['bop:' + c for c in chain]}
 
 
